@@ -27,6 +27,9 @@ func (sc *histScenario) clone() *histScenario {
 	b, _ := json.Marshal(sc)
 	var c histScenario
 	json.Unmarshal(b, &c)
+	if c.Spec != nil && c.Spec.Files == nil {
+		c.Spec.Files = map[string]string{}
+	}
 	return &c
 }
 
@@ -100,7 +103,7 @@ func (h *histRun) refreshModel(why string) {
 func (h *histRun) edit(i int, op *opSpec) error {
 	h.w.op = i
 	why := fmt.Sprintf("op %d: %s %s%s%s", i, op.Op, op.Item, op.Path, op.Label)
-	if h.p.applySpecEdit(op) {
+	if h.p.applySpecEdit(op) || h.p.applySpecEdit2(op) {
 		var err error
 		h.prev, err = h.p.sync(h.w.root, h.prev)
 		if err != nil {
